@@ -91,13 +91,24 @@ func configs(prop string, thorough bool) []*Config {
 			c.Sess = append(c.Sess, SessDef{ID: "4294967295", PID: "105", Events: []auparse.AuditMessageType{tLOGIN, tEV, tDISP}})
 			c.Logins = append(c.Logins, LoginDef{PID: 105})
 		}
-		c.FanOutTypes = recordTypes(thorough)
+		c.FanOutTypes = recordTypes(false)
+		var extra []*Config
+		if thorough {
+			// every record type go-libaudit knows, from every state of the base alphabet (the larger
+			// alphabet above keeps the 15-type subset: states x types x sessions is the cost)
+			all := *c
+			all.Name = "C04-all-record-types"
+			all.Sess = append([]SessDef{}, c.Sess[:5]...)
+			all.Logins = append([]LoginDef{}, c.Logins[:2]...)
+			all.FanOutTypes = recordTypes(true)
+			extra = append(extra, &all)
+		}
 		// "whatever is emitted for a session after its credential-disposal record still carries only
 		// that session's own identity": only observable when another login with the same pid exists,
 		// so C04 also walks the pid-reuse alphabet of C09 with its identity oracle.
 		r := configs("C09", thorough)[0]
 		r.Name, r.OSeq, r.OIntact, r.ONoLeak = "C04-late-events-under-pid-reuse", false, false, true
-		return []*Config{c, r}
+		return append([]*Config{c, r}, extra...)
 	case "C09":
 		c := &Config{Name: "C09-reuse", CutMode: 1, OSeq: true, OIntact: true,
 			Sess: []SessDef{
